@@ -196,6 +196,8 @@ Theorem eegmeg_ranges_ok : forall i me mm n : BinNums.Z,
   GenGain.gen_rhs_row_eeg i me mm n = i /\ GenGain.gen_rhs_row_meg i me mm n = BinInt.Z.add me i /\
   GenGain.gen_both_eeg_range me mm n = (z0, me, z0, n) /\ GenGain.gen_both_meg_range me mm n = (me, mm, z0, n).
 Proof. exact GainSites.eegmeg_ranges_ok. Qed.
+Theorem dsm_integrators_agree : GenGain.gen_dsm_default_integrator = GenGain.gen_dsm_tool_integrator.
+Proof. exact GainSites.dsm_integrators_agree. Qed.
 Theorem translator_clean : GenGain.gen_problems = nil.
 Proof. exact GainSites.translator_clean. Qed.
 Print Assumptions solveLin_call_ok.
